@@ -59,11 +59,13 @@ def path_conditions(node, stop=None):
         for s in blk[:idx]:
             if isinstance(s, ast.If) and not s.orelse and s.body and isinstance(s.body[-1], (ast.Continue, ast.Return, ast.Break, ast.Raise)):
                 out.extend(literals(s.test, False))
-    while p is not None and p is not stop:
+    while p is not None:
         for fld in ('body', 'orelse', 'finalbody'):
             blk = getattr(p, fld, None)
             if isinstance(blk, list) and child in blk:
                 early_exit_guards(blk, blk.index(child))
+        if p is stop:
+            break           # (the early exits inside the stop node's own block still count)
         if isinstance(p, (ast.FunctionDef, ast.AsyncFunctionDef, ast.Lambda, ast.ClassDef, ast.Module)):
             break
         if isinstance(p, ast.If):
@@ -356,10 +358,35 @@ def specialise(stmts, env):
             if out and isinstance(out[-1], (ast.Return, ast.Raise)):
                 break
             continue
-        out.append(s)
+        out.append(_specialise_ifexp(s, env))
         if isinstance(s, (ast.Return, ast.Raise)):
             break
     return out
+
+
+def _specialise_ifexp(stmt, env):
+    """the simple statement with every conditional EXPRESSION whose test env decides replaced by its taken operand (a copy;
+    the statement itself is returned when there is nothing to decide)"""
+    if isinstance(stmt, (ast.If, ast.For, ast.While, ast.With, ast.Try, ast.FunctionDef, ast.AsyncFunctionDef, ast.ClassDef)):
+        return stmt
+    if not any(isinstance(x, ast.IfExp) and eval_test(x.test, env) is not None for x in ast.walk(stmt)):
+        return stmt
+    from . import alpha
+
+    class Cut(ast.NodeTransformer):
+        def visit_IfExp(self, n):
+            v = eval_test(n.test, env)
+            if v is True:
+                return self.visit(n.body)
+            if v is False:
+                return self.visit(n.orelse)
+            return self.generic_visit(n)
+    new = Cut().visit(alpha.clone(stmt))
+    new._parent = getattr(stmt, '_parent', None)
+    for x in ast.walk(new):
+        for c in ast.iter_child_nodes(x):
+            c._parent = x
+    return new
 
 
 def eval_expr(e, env):
